@@ -81,7 +81,7 @@ func opPubKeyOps(_ *HState, a Event) Event {
 		for _, f := range []bchutil.PubKeyFormat{bchutil.PKFCompressed, bchutil.PKFUncompressed, bchutil.PKFHybrid, bchutil.PKFCompressed} {
 			ad.SetFormat(f)
 			ser := ad.ScriptAddress()
-			forms = append(forms, map[string]interface{}{"fmt": names[ad.Format()], "ser": ints(ser), "str": str(retainStr("AddressPubKey", "String", ad.String())), "enc": str(retainStr("AddressPubKey", "EncodeAddress", ad.EncodeAddress())),
+			forms = append(forms, map[string]interface{}{"fmt": names[ad.Format()], "want": names[f], "ser": ints(ser), "str": str(retainStr("AddressPubKey", "String", ad.String())), "enc": str(retainStr("AddressPubKey", "EncodeAddress", ad.EncodeAddress())),
 				"pkhenc": str(ad.AddressPubKeyHash().EncodeAddress())})
 			env = append(env, envHash160(ser)...)
 			env = append(env, envSha256d(append([]byte{net.LegacyPubKeyHashAddrID}, ripemd(sha256b(ser))...)))
